@@ -12,16 +12,26 @@ import (
 	"github.com/gdamore/tcell/v2/terminfo"
 	"pgregory.net/rapid"
 
-	"verifharness/internal/faketty"
-	"verifharness/internal/vt"
 	"verifharness/internal/csets"
+	"verifharness/internal/faketty"
 	"verifharness/internal/pbt"
 	"verifharness/internal/shadow"
 	"verifharness/internal/tsrun"
+	"verifharness/internal/vt"
 )
 
 func TestMain(m *testing.M) {
 	csets.Init()
+	// a description outside the built-in database whose acsc also carries pairs
+	// for glyph names tcell has no rune for (the ncurses double-line extension
+	// keys, mapped by the terminal onto its single-line glyphs), ahead of the
+	// standard VT100 pairs
+	if base, err := terminfo.LookupTerminfo("vt220"); err == nil {
+		cp := *base
+		cp.Name, cp.Aliases = "vt220+acsext", nil
+		cp.AltChars = "RqYx" + cp.AltChars
+		terminfo.AddTerminfo(&cp)
+	}
 	pbt.Main(m, "C17")
 }
 
@@ -245,7 +255,7 @@ func runSweep(sc SweepCase) error {
 	return nil
 }
 
-var quickEntries = []string{"xterm", "linux", "ansi", "rxvt-unicode", "sun", "vt220"}
+var quickEntries = []string{"xterm", "linux", "ansi", "rxvt-unicode", "sun", "vt220", "vt220+acsext"}
 var quickCharsets = []string{"ISO8859-1", "KOI8-R", "US-ASCII", "EUC-JP", "GBK", "ISO8859-7", "Big5", "UTF-8"}
 
 func sweep(t *testing.T) {
@@ -292,7 +302,7 @@ func sweep(t *testing.T) {
 					sc := SweepCase{Entry: en, Charset: cs, From: from, To: to, Step: g.step}
 					err := pbt.Safe(func() error { return runSweep(sc) })
 					sw.Case(cs != "UTF-8", pbt.HashStr("c17", en, cs, fmt.Sprint(from, g.step)), func() any { return sc }, err, nil)
-					pbt.NoteN(int64((to-from)/rune(g.step)))
+					pbt.NoteN(int64((to - from) / rune(g.step)))
 				}
 			}
 		}
